@@ -206,6 +206,7 @@ func (c *MemConn) NewStream(ctx context.Context, desc *grpc.StreamDesc, method s
 
 	// caller's context ending aborts the stream in both directions.
 	l.mu.Lock()
+	l.callerCtx = ctx
 	l.stopCtxWatch = context.AfterFunc(ctx, func() {
 		l.clientAbort(status.FromContextError(ctx.Err()).Err())
 	})
@@ -256,6 +257,7 @@ type Link struct {
 	cliCtx       context.Context
 	cliCancel    context.CancelFunc
 	stopCtxWatch func() bool
+	callerCtx    context.Context
 	cliDone      bool
 	cliErr       error // nil means io.EOF (OK status)
 	cliTrailer   metadata.MD
@@ -351,6 +353,20 @@ func (l *Link) clientAbort(err error) {
 	}
 	l.finishClientLocked(err, nil)
 	l.abortServerAfterLatency(status.Error(codes.Canceled, "context canceled"))
+}
+
+// observeCallerCtx makes a client-side operation that starts after the caller's
+// context has ended see the stream as aborted, whether or not the asynchronous
+// context watcher has run yet (grpc-go: once the context is done the stream is
+// finished with the context error; a half-close issued afterwards does not
+// turn that into a clean end).
+func (l *Link) observeCallerCtx() {
+	if l.callerCtx == nil {
+		return
+	}
+	if err := l.callerCtx.Err(); err != nil {
+		l.clientAbort(status.FromContextError(err).Err())
+	}
 }
 
 // Break simulates loss of the transport: both halves fail at once.
@@ -594,6 +610,7 @@ func (s *memClientStream) canarySend() func() {
 func (s *memClientStream) CloseSend() error {
 	defer s.canarySend()()
 	l := s.l
+	l.observeCallerCtx()
 	l.mu.Lock()
 	defer l.mu.Unlock()
 	if l.closeSent || l.cliDone {
@@ -610,6 +627,7 @@ func (s *memClientStream) CloseSend() error {
 func (s *memClientStream) SendMsg(m any) error {
 	defer s.canarySend()()
 	l := s.l
+	l.observeCallerCtx()
 	err := l.send(C2S, m, func() error {
 		if l.cliDone {
 			return io.EOF
@@ -639,6 +657,7 @@ func (s *memClientStream) RecvMsg(m any) error {
 	l.cliRecvPlain++
 	defer l.cliRecvIn.Add(-1)
 
+	l.observeCallerCtx()
 	l.mu.Lock()
 	defer l.mu.Unlock()
 	it, err := l.recvLocked(S2C, func() error {
